@@ -646,7 +646,10 @@ func c50head(b []byte) string {
 func (c *c50run) runPath(mode, label, raw string, special bool, methods []string, cfgs []c50cfg, tag int) {
 	r := c.r
 	for _, method := range methods {
-		for _, cf := range cfgs {
+		for ci, cf := range cfgs {
+			if method != "GET" && method != "HEAD" && ci != 0 && ci != len(cfgs)-1 {
+				continue // other methods: first and last configuration only (stated in the rule)
+			}
 			id := ""
 			mk := func() string {
 				id = vk.Key("C50", mode, strconv.Quote(method), cf.name, strconv.Quote(label), tag)
